@@ -251,6 +251,12 @@ def fam_eig_dense(d, seed):
     gen = d.get('generalized', False)
     ins = []
     dcls = {'sym': 'spd', 'herm': 'hpd', 'gen_real_spec': 'gen_r', 'gen_c': 'gen_c'}[cls]
+    if gen and cls == 'gen_real_spec':
+        # the class promises a REAL simple spectrum of the pencil (A, B): eig(B^-1 A) of a non-symmetric A with real
+        # spectrum may contain a complex-conjugate pair (value table 3 did: 442 unconverged derivatives, order inside
+        # the pair is not defined), so A := B (V diag(lam) V^-1) whose pencil has exactly the spectrum lam
+        Rb = val.mat(n, n, 100, seed)
+        A = (Rb @ Rb.T / n + np.eye(n)) @ A
     ins.append(Inp(A, class_dirs(dcls, n)))
     if gen:
         if cls == 'herm':
